@@ -191,6 +191,18 @@ func genC04(t *rapid.T) (relCase, bool, []string) {
 		nt = a.Count() >= 3
 	}
 	c.Tags = tagsOf(append(r.vals, involved...)...)
+	if kind == "join" && !c.hasTag("bytes-sparse") {
+		// A join whose operands are not both stored as relations unions its result
+		// together one key group at a time in hash order; a byte array of three or
+		// more members then passes through a byte array with a gap, which the
+		// implementation cannot represent (known finding bytes-sparse).
+		for _, v := range involved {
+			if len(byteIdx(v)) >= 3 {
+				c.Tags = append(c.Tags, "bytes-sparse")
+				break
+			}
+		}
+	}
 	for _, tg := range c.Tags {
 		classes = append(classes, "tag:"+tg)
 	}
@@ -208,7 +220,7 @@ func checkRelCase(c relCase) *Failure {
 		return mkFailure("C04", "C04/relop", sig, detail, c)
 	}
 	if c.UnnestAttr != "" && out.Kind == "value" {
-		// unnest inverts nest (unnest has no source syntax; use the exported operation)
+		// unnest inverts nest: through the exported operation and through the source operator
 		o := obs.Guard(func() (rel.Value, error) {
 			s, ok := out.Value.(rel.Set)
 			if !ok {
@@ -231,6 +243,19 @@ func checkRelCase(c relCase) *Failure {
 				return nil
 			}
 			return mkFailure("C04", "C04/relop", sig, fmt.Sprintf("program: %s\nunnest %s of the result must give back the operand\nexpected: %s\nobserved: %s", c.Src, c.UnnestAttr, want, bad), c)
+		}
+		// the same through the source operator
+		src := "(" + c.Src + ") unnest " + c.UnnestAttr
+		if o := obs.Eval(src); o.Kind != "value" {
+			bad = o.String()
+		} else if got, an := obs.Denote(o.Value); got.Key() != want || len(an) > 0 {
+			bad = got.Key() + " " + strings.Join(an, "; ")
+		}
+		if bad != "" {
+			if known("C04", sig) {
+				return nil
+			}
+			return mkFailure("C04", "C04/relop", sig, fmt.Sprintf("program: %s\nmust give back the operand of the nest\nexpected: %s\nobserved: %s", src, want, bad), c)
 		}
 	}
 	return nil
